@@ -1625,6 +1625,11 @@ func (self *Fork) expandForkFromRef(must bool, i int,
 			self.forkId.GoString(),
 			len(matchedForks), len(bNode.forks), bNode.GetFQName())
 	}
+	if matchedForks[0].getState() == DisabledState {
+		// The call which makes the collection does not run: there is
+		// nothing to map over.
+		return self.expandForkFromObj(i, part, split, nil, ref, result)
+	}
 	// The outputs of a fork are written before they are checked.  Until the
 	// fork is marked complete - in particular if it failed that check and
 	// is going to be run again - they say nothing about the forks to make.
